@@ -10,7 +10,8 @@ import hist
 import progs as P
 import values as V
 
-COQ_FILES = ("L4_Eval/DdsEval.v", "L4_Eval/RunEval.v", "L4_Eval/LoadProofs.v", "Properties/C09.v")
+COQ_FILES = ("L4_Eval/DdsEval.v", "L4_Eval/RunEval.v", "L4_Eval/LoadProofs.v", "L3_Sig/SigTree.v", "L3_Sig/SigTreeProofs.v", "Properties/C09.v", "Properties/C09b.v")
+PROPERTY_FILES = ("C09", "C09b")
 EXTRACTED = ("ConstHash", "ConstSig")
 ALLOWED_AXIOMS = ()
 i_, s_ = V.i_, V.s_
